@@ -15,6 +15,9 @@
 package server
 
 import (
+	"errors"
+	"math"
+
 	"github.com/cybergarage/go-redis/redis"
 )
 
@@ -127,34 +130,41 @@ func (zset *ZSet) insert(nm *ZSetMember) {
 }
 
 func (zset *ZSet) Range(start int, stop int, opt ZRangeOption) []*ZSetMember {
+	// With REV the ranks count from the member with the highest score.
+	members := zset.members
+	if opt.REV {
+		members = reverseZSetMembers(append([]*ZSetMember{}, zset.members...))
+	}
+
 	if start < 0 {
-		start = len(zset.members) + start
+		start = len(members) + start
 	}
 	if stop < 0 {
-		stop = len(zset.members) + stop
+		stop = len(members) + stop
 	}
 
 	// Clamps the range to the set so that the loop is bounded by its size.
 	if start < 0 {
 		start = 0
 	}
-	if (len(zset.members) - 1) < stop {
-		stop = len(zset.members) - 1
+	if (len(members) - 1) < stop {
+		stop = len(members) - 1
 	}
 	mems := []*ZSetMember{}
 	for n := start; n <= stop; n++ {
-		mems = append(mems, zset.members[n])
+		mems = append(mems, members[n])
 	}
 
-	mems = limitZSetMembers(mems, opt)
-	if !opt.REV {
-		return mems
-	}
-
-	return reverseZSetMembers(mems)
+	return limitZSetMembers(mems, opt)
 }
 
 func (zset *ZSet) RangeByScore(min float64, max float64, opt ZRangeOption) []*ZSetMember {
+	// With REV the first bound is the maximum and the second the minimum,
+	// and the members are returned (and limited) from the highest score down.
+	if opt.REV {
+		min, max = max, min
+		opt.MINEXCLUSIVE, opt.MAXEXCLUSIVE = opt.MAXEXCLUSIVE, opt.MINEXCLUSIVE
+	}
 	mems := []*ZSetMember{}
 	for _, mem := range zset.members {
 		if (mem.Score < min && !opt.MINEXCLUSIVE) || (mem.Score <= min && opt.MINEXCLUSIVE) {
@@ -166,12 +176,10 @@ func (zset *ZSet) RangeByScore(min float64, max float64, opt ZRangeOption) []*ZS
 		mems = append(mems, mem)
 	}
 
-	mems = limitZSetMembers(mems, opt)
-	if !opt.REV {
-		return mems
+	if opt.REV {
+		mems = reverseZSetMembers(mems)
 	}
-
-	return reverseZSetMembers(mems)
+	return limitZSetMembers(mems, opt)
 }
 
 func (zset *ZSet) Rem(members []string) int {
@@ -335,6 +343,10 @@ func (server *Server) ZIncBy(conn *redis.Conn, key string, inc float64, member s
 	_, zset, err := db.GetZSetRecord(key)
 	if err != nil {
 		return nil, err
+	}
+	// inf + -inf: the member keeps its score, a sorted set cannot be ordered by NaN.
+	if score, ok := zset.Score(member); ok && math.IsNaN(score+inc) {
+		return nil, errors.New("resulting score is not a number (NaN)")
 	}
 	return redis.NewFloatMessage(zset.IncBy(inc, member)), nil
 }
